@@ -56,7 +56,8 @@ def _mc_one(ctx, job):
     tag = ('_' + '_'.join(defects)) if defects else ''
     mod, cfg, files = rc.mc_files(scn, tag=tag, defects=defects, invariants=invs)
     workers = {'star3': 10, 'three1': 6, 'full2': 4, 'star2': 8 if ctx.quick else 3}.get(scn, 1)
-    return tlc.mc(rc.SPEC_DIR, mod, cfg, extra_files=files, coverage=False,
+    # per-action coverage (vacuity control) on the small configuration only
+    return tlc.mc(rc.SPEC_DIR, mod, cfg, extra_files=files, coverage=(scn == 'three0'),
                   workers=workers, heap='4g', timeout=150 if ctx.quick else 780)
 
 
@@ -83,7 +84,7 @@ def _model_side(ctx):
         sim_res = [f.result() for f in sim_f]
     items = []
     for (name, scn, defects, invs), res in zip(jobs, mc_res):
-        ctx.add_mc(name, res)
+        ctx.add_mc(name, res, need_actions=('Create', 'Update', 'Delete') if res['coverage'] else ())
         labels = [(a, tlc.tlaval.split_args(b)) for a, b in res['cex'] if a not in ('Initial', 'Next')]
         table = rc.SCENARIOS[scn]['tables'][0]
         if defects:
